@@ -29,7 +29,7 @@ PATS = {
     "comments": ["note", "abc", "", ".*", "x ; y", ".*;.*", "(abc|note)", "no", ".+"],
     "pacc": ["a", "a:b", "a:b:c", "a.*", "a:.*", ".*", "a|e", "[ae]", "a:b(:c)?", "ab?", ".+:.+", "e.*", "e", "abc", "a.", "e:x"],
     "pcomment": ["pc", "abc", "", ".*", "p.", ".+", "pc|abc"],
-    "pcomm": ["EUR", "E.*", "E", "U.D|EUR", "", ".*", ".+", "USD", "[EU].*"],
+    "pcomm": ["EUR", "E.*", "E", "U.D|EUR", "", ".*", ".+", "USD", "[EU].*", "ACME", "A.*|E"],
 }
 CODES = [None, None, "c1", "c2", "#1", "a b", ""]
 DESCS = [None, "abc", "abcd", "ab", "x abc", "", "ünï"]
@@ -185,9 +185,23 @@ def gen_txn(r, ctx, audit, uuid_pool):
     for _ in range(r.randint(1, 3)):
         amt = r.choice(AMOUNTS)
         acc = r.choice(ACCOUNTS)
-        posts.append({"acc": acc, "amount": amt, "comm": comm, "closing": None, "opening": None, "comment": r.choice(PCOMMENTS)})
+        p = {"acc": acc, "amount": amt, "comm": comm, "closing": None, "opening": None, "comment": r.choice(PCOMMENTS)}
+        val = amt
+        if comm != "" and r.random() < 0.3:
+            # posting in another commodity priced into the transaction commodity:
+            # posting commodity != transaction commodity, posting amount != transaction amount
+            p["comm"] = r.choice([c for c in ("ACME", "E", "USD") if c != comm])
+            if r.random() < 0.5:
+                pr = r.choice([(2, 0), (15, 1), (1, 0), (300, 2)])
+                p["closing"] = ("@", pr, comm)
+                val = (amt[0] * pr[0], amt[1] + pr[1])
+            else:
+                val = (r.choice([3, 25, 1000]) * (1 if amt[0] > 0 else -1), r.choice([0, 1]))
+                p["closing"] = ("=", val, comm)
+            ctx["amounts"].append((acc, val))
+        posts.append(p)
         ctx["amounts"].append((acc, amt))
-        total = J.add(total, amt)
+        total = J.add(total, val)
     if total[0] == 0:
         posts.append({"acc": "a", "amount": (7, 0), "comm": comm, "closing": None, "opening": None, "comment": None})
         total = J.add(total, (7, 0))
